@@ -846,14 +846,14 @@ class Interp:
 
     def e_Name(self, e, env):
         v = env.lookup(e.id)
-        if e.id == "pi" and isinstance(v, float) and v == math.pi and have_ctx() and current().symbolic:
+        if e.id == "pi" and isinstance(v, float) and v == math.pi and have_ctx() and current().symbolic and current().sym_pi:
             return Poly.pi()
         return v
 
     def e_Attribute(self, e, env):
         obj = self.eval(e.value, env)
         v = self.getattr(obj, e.attr)
-        if e.attr == "pi" and isinstance(v, float) and v == math.pi and isinstance(obj, types.ModuleType) and have_ctx() and current().symbolic:
+        if e.attr == "pi" and isinstance(v, float) and v == math.pi and isinstance(obj, types.ModuleType) and have_ctx() and current().symbolic and current().sym_pi:
             return Poly.pi()
         return v
 
@@ -1428,8 +1428,26 @@ def _m_filter(interp, f, args, kw):
 @model(list, tuple, set, frozenset, doc="container constructors iterate through interpreted __iter__")
 def _m_list(interp, f, args, kw):
     if len(args) == 1:
-        return f(interp.iterate(args[0]))
+        items = list(interp.iterate(args[0]))
+        if f in (set, frozenset) and any(isinstance(x, Poly) and not x.is_const() for x in items):
+            # set of symbolic numbers: duplicates are decided by (forking on) value equality
+            out = []
+            for x in items:
+                if not any(truth(interp.py_eq(x, y)) for y in out):
+                    out.append(x)
+            return SymSet(out)
+        return f(items)
     return f(*args, **kw)
+
+
+class SymSet(list):
+    """a set whose elements are symbolic numbers, already de-duplicated on the current path (supports len / in / iteration / add)"""
+
+    def add(self, x):
+        for y in self:
+            if truth(y == x):
+                return
+        self.append(x)
 
 
 @model(enumerate, zip, reversed, doc="iteration helpers over interpreted iterables")
